@@ -70,6 +70,10 @@ func NewPoKOfSignature(signature *Signature, messages []*SignatureMessage, revea
 	}
 
 	for _, ind := range revealedIndexes {
+		if ind < 0 || ind >= len(messages) {
+			return nil, fmt.Errorf("invalid revealed index %d of %d messages", ind, len(messages))
+		}
+
 		revealedMessages[ind] = messages[ind]
 	}
 
